@@ -1,6 +1,6 @@
 (* Props/C19.v — the property theorems of C19, and nothing else.
    Versions are strings; V s is the component tuple Version(s)._v. *)
-From MV Require Import Base.Strs Version.Model Version.Proofs.
+From MV Require Import Base.Strs Version.Model Version.Feature Version.Search Version.FeatureProofs Version.SearchProofs Version.Proofs.
 
 Definition V (s : str) : ver := tokenize s.
 
@@ -66,11 +66,49 @@ Print Assumptions C19_numeric_above_alpha.
 Theorem C19_longer_is_greater : forall a x r, vop OpLt a (a ++ x :: r) = true.
 Proof. exact longer_is_greater. Qed.
 Print Assumptions C19_longer_is_greater.
+(* (digits = every Unicode decimal digit, valued by int(); all_digits, udigits_val) *)
 Theorem C19_tokenize_dotted : forall dss,
   Forall (fun ds => all_digits ds /\ ds <> []) dss ->
-  V (dotted dss) = map (fun ds => CNum (digits_val ds)) dss.
+  V (dotted dss) = map (fun ds => CNum (udigits_val ds)) dss.
 Proof. exact tokenize_dotted. Qed.
 Print Assumptions C19_tokenize_dotted.
+(* the same three rules on raw strings: b is empty or ends with a separator, the
+   runs that follow are maximal *)
+Theorem C19_str_numeric_numerically : forall b ds1 ds2 r1 r2,
+  ends_sep b = true -> ds1 <> [] -> ds2 <> [] -> all_digits ds1 -> all_digits ds2 ->
+  not_digit_start r1 -> not_digit_start r2 -> (udigits_val ds1 < udigits_val ds2)%N ->
+  vop OpLt (V (b ++ ds1 ++ r1)) (V (b ++ ds2 ++ r2)) = true.
+Proof. exact str_numeric_numerically. Qed.
+Print Assumptions C19_str_numeric_numerically.
+Theorem C19_str_numeric_above_alpha : forall b al ds r1 r2,
+  ends_sep b = true -> al <> [] -> ds <> [] -> all_alpha al -> all_digits ds ->
+  not_alpha_start r1 -> not_digit_start r2 ->
+  vop OpLt (V (b ++ al ++ r1)) (V (b ++ ds ++ r2)) = true.
+Proof. exact str_numeric_above_alpha. Qed.
+Print Assumptions C19_str_numeric_above_alpha.
+Theorem C19_str_longer_is_greater : forall a c q,
+  is_sep c = true -> V q <> [] -> vop OpLt (V a) (V (a ++ c :: q)) = true.
+Proof. exact str_longer_is_greater. Qed.
+Print Assumptions C19_str_longer_is_greater.
+(* the digit class: values below ten; the ASCII digits keep their value; an ASCII
+   letter is never a digit *)
+Theorem C19_digit_class : forall c,
+  (udigit_val c < 10)%N /\
+  (is_digit c = true -> is_udigit c = true /\ udigit_val c = digit_val c) /\
+  (is_alpha c = true -> is_udigit c = false).
+Proof. intro c. split; [apply udigit_val_lt | split; [apply ascii_digit_udigit | apply alpha_not_udigit]]. Qed.
+Print Assumptions C19_digit_class.
+(* Version(s) is defined (no ValueError from int()) unless s has a run of more
+   than 4300 decimal digits; then it raises: known finding C19:int-max-str-digits *)
+Theorem C19_version_init_raises_iff : forall s,
+  version_init s = None <->
+  exists pre ds post, s = pre ++ ds ++ post /\ all_digits ds /\ (int_max_str_digits < length ds)%nat.
+Proof. exact version_init_raises_iff. Qed.
+Print Assumptions C19_version_init_raises_iff.
+Theorem C19_version_init_defined : forall s,
+  (length s <= int_max_str_digits)%nat -> version_init s = Some (V s).
+Proof. exact version_init_short. Qed.
+Print Assumptions C19_version_init_defined.
 
 (* version_compare with any operator agrees with that order *)
 Theorem C19_version_compare_agrees : forall sp o v w,
@@ -78,6 +116,13 @@ Theorem C19_version_compare_agrees : forall sp o v w,
   version_compare v (sp ++ w) = vop o (V v) (V (strip w)).
 Proof. exact version_compare_agrees. Qed.
 Print Assumptions C19_version_compare_agrees.
+
+(* ... for every constraint string, no guard: the operator and version text are
+   those _version_extract_cmpop finds *)
+Theorem C19_version_compare_any : forall v c,
+  version_compare v c = vop (fst (extract_cmpop c)) (V v) (V (snd (extract_cmpop c))).
+Proof. intros. unfold version_compare, V. destruct (extract_cmpop c). reflexivity. Qed.
+Print Assumptions C19_version_compare_any.
 
 (* a constraint list holds iff each constraint holds *)
 Theorem C19_compare_many : forall v cs,
@@ -116,3 +161,132 @@ Theorem C19_always_false : forall a inner,
   always a inner = Some false -> forall x, contains a x = true -> contains inner x = false.
 Proof. exact always_false_sound. Qed.
 Print Assumptions C19_always_false.
+
+(* ------------------------------------------------------------------ *)
+(* The callers: FeatureNew / FeatureDeprecated (decorators.py) on the target range
+   built from project(meson_version:) and nested version_compare conditions. *)
+
+(* version_compare_condition_with_min answers True only if every admitted version
+   is >= the minimum - for every range *)
+Theorem C19_cwm_sound : forall r fv x,
+  cwm_range r fv = true -> contains r x = true -> vop OpGe x (V fv) = true.
+Proof. exact cwm_sound. Qed.
+Print Assumptions C19_cwm_sound.
+(* ... and exactly then when the range has a least element (closed admitted lower
+   bound, or none and the empty version admitted, or flagged empty) *)
+Theorem C19_cwm_exact_partial : forall r fv, exact_guard r fv = true ->
+  (cwm_range r fv = true <-> forall x, contains r x = true -> vop OpGe x (V fv) = true).
+Proof. exact cwm_exact. Qed.
+Print Assumptions C19_cwm_exact_partial.
+Theorem C19_cwm_complete_refuted :
+  exists r fv, (forall x, contains r x = true -> vop OpGe x (V fv) = true) /\ cwm_range r fv = false.
+Proof. exact cwm_complete_refuted. Qed.
+Print Assumptions C19_cwm_complete_refuted.
+(* the gap that matters: an exclusive lower bound.  Every version string above "1" is
+   >= "1A", so '>1' admits only versions >= '1A', yet FeatureNew('x', '1A') would warn *)
+Theorem C19_cwm_open_min_gap :
+  exists pv fv, (forall s, contains (project_range pv) (V s) = true -> vop OpGe (V s) (V fv) = true)
+                /\ cwm_range (project_range pv) fv = false.
+Proof. exact cwm_open_min_gap. Qed.
+Print Assumptions C19_cwm_open_min_gap.
+Example C19_exact_guard_satisfiable :
+  exact_guard (project_range (s2l ">=0.46")) (s2l "0.47") = true.
+Proof. vm_compute. reflexivity. Qed.
+(* the target range admits every version satisfying pv and the enclosing conditions,
+   and nothing violating a non-!= one *)
+Theorem C19_nested_range : forall pv conds x,
+  (sat x pv = true -> Forall (fun cs => forallb (sat x) cs = true) conds ->
+   contains (nested_range pv conds) x = true) /\
+  (contains (nested_range pv conds) x = true ->
+   (is_ne_check pv || sat x pv) = true /\
+   Forall (fun cs => forallb (fun c => is_ne_check c || sat x c) cs = true) conds).
+Proof. intros. split; [apply nested_range_sound | apply nested_range_complete]. Qed.
+Print Assumptions C19_nested_range.
+(* use(): the usage warning is printed iff there is a target (or the class is
+   unconditional), check_version fails on the normalised version and the
+   (version, name, location) key is new *)
+Theorem C19_use_warns_iff : forall k major tv reg name ver loc,
+  snd (use k major tv reg name ver loc) = true <->
+  (tv <> TgNone \/ k = FBroken) /\
+  check_version k major tv (feature_norm ver) = false /\
+  registered reg ver name loc = false.
+Proof. exact use_warns_iff. Qed.
+Print Assumptions C19_use_warns_iff.
+(* the normalised version is the given one without trailing zero components, hence <= it *)
+Theorem C19_feature_norm : forall fv,
+  (exists k, V fv = V (feature_norm fv) ++ repeat (CNum 0) k) /\
+  vop OpLe (V (feature_norm fv)) (V fv) = true.
+Proof. intro fv. split; [apply feature_norm_tokens | apply feature_norm_le]. Qed.
+Print Assumptions C19_feature_norm.
+(* a FeatureNew notice is suppressed only if every version admitted by the
+   project's meson_version constraint (and the enclosing conditions) is >= v *)
+Theorem C19_feature_new_suppressed_sound : forall major pv conds reg name ver loc x,
+  registered reg ver name loc = false ->
+  snd (use FNew major (TgRange (nested_range pv conds)) reg name ver loc) = false ->
+  sat x pv = true -> Forall (fun cs => forallb (sat x) cs = true) conds ->
+  vop OpGe x (V (feature_norm ver)) = true.
+Proof. exact feature_new_suppressed_sound. Qed.
+Print Assumptions C19_feature_new_suppressed_sound.
+(* ... and for meson_version '>=W' exactly then: warned iff v > W, and accepted iff
+   every version satisfying '>=W' is >= v *)
+Theorem C19_feature_new_ge_exact : forall major w name ver loc, no_op_prefix w = true ->
+  snd (use FNew major (TgRange (project_range (c_gt :: c_eq :: w))) [] name ver loc)
+    = vop OpGt (V (feature_norm ver)) (V (strip w)) /\
+  (snd (use FNew major (TgRange (project_range (c_gt :: c_eq :: w))) [] name ver loc) = false <->
+   forall x, sat x (c_gt :: c_eq :: w) = true -> vop OpGe x (V (feature_norm ver)) = true).
+Proof.
+  intros major w name ver loc Hw. split; [apply feature_new_ge_warns_iff; exact Hw|].
+  assert (E : snd (use FNew major (TgRange (project_range (c_gt :: c_eq :: w))) [] name ver loc)
+              = negb (cwm_range (project_range (c_gt :: c_eq :: w)) (feature_norm ver))).
+  { apply eq_true_iff_eq. rewrite use_warns_iff. cbn [check_version registered]. rewrite negb_true_iff.
+    split; [intros (_ & H & _); exact H | intro H; repeat split; auto; left; discriminate]. }
+  rewrite E, negb_false_iff. exact (proj2 (feature_new_ge_exact w (feature_norm ver) Hw)).
+Qed.
+Print Assumptions C19_feature_new_ge_exact.
+(* a FeatureDeprecated warning is printed only if every admitted version has the deprecation *)
+Theorem C19_feature_deprecated_warns_sound : forall major pv conds reg name ver loc x,
+  snd (use FDeprecated major (TgRange (nested_range pv conds)) reg name ver loc) = true ->
+  sat x pv = true -> Forall (fun cs => forallb (sat x) cs = true) conds ->
+  vop OpGe x (V (feature_norm ver)) = true.
+Proof. exact feature_deprecated_warns_sound. Qed.
+Print Assumptions C19_feature_deprecated_warns_sound.
+(* report(): with the version normalised as use() does (pending repair) the heading
+   agrees with the usage warning; as written it does not *)
+Theorem C19_report_consistent_with_use : forall k major tv reg name ver loc,
+  registered reg ver name loc = false -> (tv <> TgNone \/ k = FBroken) ->
+  snd (use k major tv reg name ver loc) = negb (report_notice k major tv ver).
+Proof. exact report_consistent_with_use. Qed.
+Print Assumptions C19_report_consistent_with_use.
+Theorem C19_report_asis_inconsistent :
+  exists k major tv name ver loc,
+    snd (use k major tv [] name ver loc) = true /\ report_notice_asis k major tv ver = true.
+Proof. exact report_asis_inconsistent. Qed.
+Print Assumptions C19_report_asis_inconsistent.
+
+(* ------------------------------------------------------------------ *)
+(* search_version (universal.py:1207-1247): the version text that is then compared *)
+
+(* it returns 'unknown version' or a piece of the text *)
+Theorem C19_search_version_substring : forall t,
+  search_version t = unknown_version \/ exists pre post, t = pre ++ search_version t ++ post.
+Proof. exact search_version_substring. Qed.
+Print Assumptions C19_search_version_substring.
+(* when the first expression matches somewhere the result is its leftmost match:
+   a one- or two-digit run not preceded by a digit or period, one or more ".digits"
+   groups, optionally "-alnum", followed by a blank or the end of the text *)
+Theorem C19_search_version_first_match : forall t m, search1 None t = Some m ->
+  search_version t = m /\ sv1_shape m /\
+  exists pre post, t = pre ++ m ++ post /\ lookbehind_ok (prev_of None pre) = true /\
+    at_space_or_end post = true /\
+    forall p1 r1, t = p1 ++ r1 -> (length p1 < length pre)%nat -> sv1_at (prev_of None p1) r1 = None.
+Proof. exact search_version_first_match. Qed.
+Print Assumptions C19_search_version_first_match.
+(* a dotted version d.d(.d)* with a one- or two-digit head standing on its own
+   (no digit before it, not directly after a period, a blank or the end after it)
+   is found exactly, and (C19_tokenize_dotted) parses to its numbers *)
+Theorem C19_search_version_dotted : forall pre ds0 ds1 dss post,
+  forallb (fun c => negb (is_udigit c)) pre = true -> lookbehind_ok (prev_of None pre) = true ->
+  runs_ok (ds0 :: ds1 :: dss) -> (length ds0 <= 2)%nat -> at_space_or_end post = true ->
+  search_version (pre ++ dotted (ds0 :: ds1 :: dss) ++ post) = dotted (ds0 :: ds1 :: dss).
+Proof. exact search_version_dotted. Qed.
+Print Assumptions C19_search_version_dotted.
